@@ -67,12 +67,13 @@ type Peer struct {
 	B    Behaviour
 	w    *World
 
-	mu       sync.Mutex
-	own      *Blk // tip of this peer's own branch (lighterFork / liarHeaders)
-	cur      *session
-	Sessions int32
-	fakeHash map[int32]chainhash.Hash
-	Release  chan struct{} // confirm-after-release: closed by the scenario when the late answers may flow
+	mu         sync.Mutex
+	own        *Blk // tip of this peer's own branch (lighterFork / liarHeaders)
+	cur        *session
+	Sessions   int32
+	fakeHash   map[int32]chainhash.Hash
+	AfterWrite func(m wire.Message) // called by the connection's writer right after a message went out
+	Release    chan struct{}        // confirm-after-release: closed by the scenario when the late answers may flow
 
 	// counters (atomic)
 	GotGetHeaders, GotGetCFHeaders, GotGetCFCheckpt, GotGetCFilters, GotGetData, GotInvTx, GotTx int32
@@ -253,6 +254,9 @@ func (s *session) writer(pver uint32, net wire.BitcoinNet) {
 		if err != nil {
 			s.close()
 			return
+		}
+		if m != nil && s.p.AfterWrite != nil {
+			s.p.AfterWrite(m)
 		}
 	}
 }
